@@ -13,7 +13,8 @@ from vakt.exceptions import InvalidPatternError
 MODULE = 'Props.C07'
 THEOREMS = ['Vakt.C07.filterM_superset', 'Vakt.C07.superset_ok', 'Vakt.C07.other_type_no_match',
             'Vakt.C07.exact_query_sound', 'Vakt.C07.fuzzy_query_sound', 'Vakt.C07.candidate_sound',
-            'Vakt.C07.backend_decision_eq']
+            'Vakt.C07.backend_decision_eq',
+            'Vakt.C07.probes_ok']
 EXTRA_IMPORTS = ['Props.C06']
 FLOOR = {'quick': 50, 'thorough': 1500}
 ASSUMPTIONS = ['MySQL / PostgreSQL / Oracle regex and LIKE-escape semantics and a real MongoDB (PCRE) are not available: the '
